@@ -748,6 +748,10 @@ func (this *Writer) processBlock() error {
 		go task.encode(&results[taskID])
 	}
 
+	if verifOn {
+		verifBatch(verifSideEncode, firstID, tasks, &this.blockID)
+	}
+
 	// Wait for completion of all tasks
 	wg.Wait()
 
@@ -1809,6 +1813,10 @@ func (this *Reader) processBlock() (int64, error) {
 
 			// Invoke the tasks concurrently
 			go task.decode(&results[taskID])
+		}
+
+		if verifOn {
+			verifBatch(verifSideDecode, firstID, nbTasks, &this.blockID)
 		}
 
 		// Wait for completion of all tasks
